@@ -15,6 +15,7 @@ All numbers in a finished trace are integers:
   * U/B/means ... -> round(S*x) with +-inf sentinels (E4)
 """
 import math
+from fractions import Fraction
 import signal
 import copy
 
@@ -506,30 +507,29 @@ class SessionRec:
             box, cpt, pbox = c["box"], c["cpt"], c["pbox"]
             okb = box is not None and len(box) == d
             okc = cpt is not None and len(cpt) == d
-            relc, relw = [], []
+            relc, relw = [], []   # coarse relative position / width (information, 2^-20 units)
+            cdev, wdev = [], []   # exact deviations from the midpoint / equal-width law, in float ulps
+            Kw = 2 if self.P["kind"] in ("bin", "dbin", "rbin") else self.P["K"]
             for x in range(d):
-                if okb and okc:
+                if okb and okc and all(math.isfinite(v) for v in (box[x][0], box[x][1], cpt[x])):
                     lo, hi = box[x]
                     w = hi - lo
-                    if w > 8 * math.ulp(max(abs(lo), abs(hi))) and math.isfinite(w):
-                        relc.append(int(round((cpt[x] - lo) / w * REL)))
-                    elif lo <= cpt[x] <= hi:  # cell at the resolution of the floats: midpoint not representable
-                        relc.append(-2)  # degenerate zero-width cell
-                    else:
-                        relc.append(-1)
+                    relc.append(int(round((cpt[x] - lo) / w * REL)) if w > 0 and math.isfinite(w) else -2)
+                    u = Fraction(math.ulp(max(abs(lo), abs(hi), 5e-324)))
+                    dev = abs(2 * Fraction(cpt[x]) - Fraction(lo) - Fraction(hi)) / u   # |cpt - mid| in half-ulps
+                    cdev.append(min(1000, int(math.ceil(dev))))
                 else:
                     relc.append(-1)
-                if okb and pbox is not None and len(pbox) == d:
-                    pw = pbox[x][1] - pbox[x][0]
-                    w = box[x][1] - box[x][0]
-                    if pw > 64 * math.ulp(max(abs(pbox[x][0]), abs(pbox[x][1]))) and math.isfinite(pw):
-                        relw.append(int(round(w / pw * REL)))
-                    elif 0 <= w <= pw:
-                        relw.append(-2)
-                    else:
-                        relw.append(-1)
+                    cdev.append(1000)
+                if okb and pbox is not None and len(pbox) == d and all(math.isfinite(v) for v in (box[x][0], box[x][1], pbox[x][0], pbox[x][1])):
+                    pw = Fraction(pbox[x][1]) - Fraction(pbox[x][0])
+                    w = Fraction(box[x][1]) - Fraction(box[x][0])
+                    relw.append(int(round(float(w / pw) * REL)) if pw > 0 else -2)
+                    u = Fraction(math.ulp(max(abs(pbox[x][0]), abs(pbox[x][1]), 5e-324)))
+                    wdev.append(min(1000, int(math.ceil(abs(w - pw / Kw) / u))))
                 else:
                     relw.append(-2 if pbox is None else -1)
+                    wdev.append(0 if pbox is None else 1000)
             return {
                 "id": c["id"],
                 "par": c["par"],
@@ -539,6 +539,8 @@ class SessionRec:
                 "cpt": [rk(x, cpt[x]) for x in range(d)] if okc else [0] * d,
                 "relc": relc,
                 "relw": relw,
+                "cdev": cdev,
+                "wdev": wdev,
             }
 
         out = []
